@@ -12,7 +12,7 @@ import sys
 import time
 
 VERIF = os.path.dirname(os.path.dirname(os.path.abspath(__file__)))
-WT = "/var/tmp/hdc_mutant_wt"
+WT = os.environ.get("HDC_MUTANT_WT", "/var/tmp/hdc_mutant_wt")
 
 
 def sh(cmd, **kw):
